@@ -76,3 +76,11 @@ add(Contract(
             '(=> (not {got_match}) (not (= (select {ist} (select {iterators} (- {num_iterators} 1))) SUSP)))',
         ]),
     }))
+
+# ---- conversion to Python values (C15, C16) ------------------------------------------------------
+_WF = '(wfl (resolve {%s} {S}))'
+add(Contract('engine.to_python', 'pure', [('v', 'Term')], ret='PV', value='(topyres {v} {S})', requires=[_WF % 'v'],
+             maps='topyresl', ghost={'maps_sort': 'PVL', 'maps_requires': '(wfll (resolvel {l} {S}))'}))
+add(Contract('engine.Atom.to_python', 'pure', [('self', 'Term:TAtom')], ret='PV', value='(topyres {self} {S})'))
+add(Contract('engine.Variable.to_python', 'pure', [('self', 'Term:TVar')], ret='PV', value='(topyres {self} {S})', requires=[_WF % 'self']))
+add(Contract('engine.Functor.to_python', 'pure', [('self', 'Term:TFun')], ret='PV', value='(topyres {self} {S})', requires=[_WF % 'self']))
